@@ -26,6 +26,11 @@ SPECIAL = [
     '99/99/9999', '3.14.15', '12-25-2021 10:11:12', 'Jan 5, 2021',
     '5 March 2020 09:00', '0001-01-01', '2021-06-07T08:09:10Z', '#hash',
     '\\d+', '\\n', '127.0.0.1', 'user@example.com', 'C:\\Users\\x']
+# extra (ignored) arguments on the command line: they end up, quoted, in the
+# command string that gentest embeds in the generated script
+CMD_ARGS = ['plain', 'two words', "it's", 'say "hi"', 'C:\\Users\\x', '\\N{x}',
+            '\\x41', '\\u12', '100%', '%s', 'é', "'''", '"""', '$HOME', 'a;b',
+            'back\\', '#c', '-n', '{z}']
 MACHINE_TOKENS = ['{TODAY}', '{CWD}', '{HOME}', '{TMPDIR}', '{USER}',
                   '{HOST}']
 
@@ -69,7 +74,8 @@ def command_case(draw, tier='quick'):
         names.add(f['name'].lower())
         files.append(f)
     exit_code = draw(st.sampled_from([0, 0, 0, 1, 2, 3]))
-    how = draw(st.sampled_from(['explicit', 'default', 'subdir', 'glob']))
+    how = draw(st.sampled_from(['explicit', 'default', 'subdir', 'glob',
+                                'outside']))
     if not files:
         how = 'default'
     if how == 'glob' and any('.' not in f['name'] for f in files):
@@ -86,6 +92,7 @@ def command_case(draw, tier='quick'):
         'script': draw(st.sampled_from(['rel', 'abs'])),
         'bystanders': draw(st.booleans()),
         'old_test': draw(st.sampled_from([False, False, True])),
+        'args': draw(st.lists(st.sampled_from(CMD_ARGS), max_size=2)),
     }
 
 
@@ -109,7 +116,10 @@ def valid_case(case):
                 if not bytes.fromhex(f['hex']):
                     return False
         return (case['exit'] in (0, 1, 2, 3)
-                and case['how'] in ('explicit', 'default', 'subdir', 'glob')
+                and case['how'] in ('explicit', 'default', 'subdir', 'glob',
+                                    'outside')
+                and all(isinstance(a, str) and a in CMD_ARGS
+                        for a in case.get('args', []))
                 and (case['files'] or case['how'] == 'default')
                 and not (case['how'] == 'glob' and any(
                     '.' not in f['name'] for f in case['files']))
@@ -147,8 +157,12 @@ class Workdir(object):
             'TMPDIR': self.tmp, 'USER': 'tvuserzq', 'HOST': ctx_env['host'],
         }
         self.outdir = 'outdir' if case['how'] == 'subdir' else ''
+        if case['how'] == 'outside':
+            # an absolute directory outside the working directory and
+            # outside $TMPDIR; the files are named explicitly
+            self.outdir = os.path.join(root, 'elsewhere')
         if self.outdir:
-            os.makedirs(os.path.join(self.w, self.outdir))
+            os.makedirs(os.path.join(self.w, self.outdir), exist_ok=True)
         self.write_payloads()
         self.write_cmd(case['exit'])
         self.bystanders = {}
@@ -209,9 +223,14 @@ class Workdir(object):
         with open(os.path.join(self.w, 'cmd.sh'), 'w') as f:
             f.write('\n'.join(lines) + '\n')
 
+    def command(self):
+        import shlex
+        args = self.case.get('args') or []
+        return ' '.join(['sh', './cmd.sh'] + [shlex.quote(a) for a in args])
+
     def ref_args(self):
         how = self.case['how']
-        if how == 'explicit':
+        if how in ('explicit', 'outside'):
             return [self.out_name(f) for f in self.case['files']]
         if how == 'subdir':
             return ['outdir']
@@ -238,7 +257,7 @@ class Workdir(object):
     def generate(self):
         c = self.case
         argv = [sys.executable, '-m', 'tdda.constraints.console', 'gentest',
-                'sh ./cmd.sh', self.script_arg()] + self.ref_args()
+                self.command(), self.script_arg()] + self.ref_args()
         argv += ['-n', str(c['n'])]
         if c['no_stdout']:
             argv.append('--no-stdout')
